@@ -748,3 +748,102 @@ Proof.
   rewrite Hres. rewrite <- (drop_gaps_row id aa st ws' Hin Hw'), has_stop_drop_gaps.
   destruct (negb inc && has_stop (map (triplet_aa (ncbi_tbl id)) ws')); reflexivity.
 Qed.
+
+(* ------------------------------------------------------------------ app.translate: best_frame, select_translatable *)
+
+(** the frames best_frame looks at are the specification's frames *)
+Definition spec_frames (tbl : list Z) (s : list Z) (allow_rc : bool) : list (list Z) :=
+  if allow_rc then six_frames_spec tbl s else map (frame_plus tbl s) [0; 1; 2]%nat.
+
+Lemma best_frame_unfold id aa st s allow_rc :
+  In (id, aa, st) new_codes -> canon_str s -> 2 < zlen s ->
+  best_frame aa s allow_rc =
+  match first_open (map strip_terminal_stop (spec_frames (ncbi_tbl id) s allow_rc)) 0 with
+  | Some i => Ok (if allow_rc && (3 <=? i) then 2 - i else i + 1)
+  | None => Err E_Value
+  end.
+Proof.
+  intros Hin Hs Hl. unfold best_frame. rewrite (sixframes_old_spec_lemma id aa st s Hin Hs Hl). cbn [bind].
+  unfold spec_frames. destruct allow_rc; reflexivity.
+Qed.
+
+Lemma first_open_spec l k i :
+  first_open l k = Some i ->
+  k <= i < k + zlen l /\
+  memZ ch_star (nth (Z.to_nat (i - k)) l []) = false /\
+  (forall j, (j < Z.to_nat (i - k))%nat -> memZ ch_star (nth j l []) = true).
+Proof.
+  revert k. induction l as [|p r IH]; intros k; cbn [first_open]; [discriminate|].
+  destruct (memZ ch_star p) eqn:E.
+  - intros H. destruct (IH (k + 1) H) as (Hr & Hn & Hj). rewrite zlen_cons.
+    replace (Z.to_nat (i - k)) with (S (Z.to_nat (i - (k + 1)))) by lia.
+    split; [lia|]. split; [exact Hn|]. intros [|j] Hlt; [exact E|]. apply Hj. lia.
+  - intros H. injection H as <-. rewrite zlen_cons, Z.sub_diag. pose proof (zlen_nonneg r).
+    split; [lia|]. split; [exact E|]. intros j Hj. lia.
+Qed.
+
+(** best_frame returns the FIRST frame (order +1 +2 +3 -1 -2 -3) whose translation holds no stop
+    codon other than a terminal one; minus frames are frames of the reverse complement *)
+Definition frame_index (f : Z) : nat := Z.to_nat (if 0 <? f then f - 1 else 2 - f).
+
+Lemma best_frame_spec_lemma id aa st s allow_rc f :
+  In (id, aa, st) new_codes -> canon_str s -> 2 < zlen s ->
+  best_frame aa s allow_rc = Ok f ->
+  let frames := map strip_terminal_stop (spec_frames (ncbi_tbl id) s allow_rc) in
+  (1 <= f <= 3 \/ (allow_rc = true /\ -3 <= f <= -1)) /\
+  has_stop (nth (frame_index f) frames []) = false /\
+  (forall j, (j < frame_index f)%nat -> has_stop (nth j frames []) = true).
+Proof.
+  intros Hin Hs Hl H. cbv zeta. rewrite (best_frame_unfold id aa st s allow_rc Hin Hs Hl) in H.
+  destruct (first_open _ 0) as [i|] eqn:E; [|discriminate]. apply Ok_inj in H.
+  destruct (first_open_spec _ 0 i E) as (Hr & Hn & Hj). rewrite Z.sub_0_r in Hn, Hj.
+  assert (Hlen : zlen (map strip_terminal_stop (spec_frames (ncbi_tbl id) s allow_rc)) = if allow_rc then 6 else 3).
+  { rewrite zlen_map. unfold spec_frames. destruct allow_rc; reflexivity. }
+  rewrite Hlen in Hr.
+  assert (Hi : frame_index f = Z.to_nat i).
+  { unfold frame_index. subst f. destruct allow_rc; cbn [andb]; [destruct (3 <=? i) eqn:E3|]; f_equal;
+      match goal with |- (if ?b then _ else _) = _ => destruct b eqn:Eb; lia end. }
+  rewrite Hi. split.
+  - subst f. destruct allow_rc; cbn [andb]; [destruct (3 <=? i) eqn:E3|]; lia.
+  - split; [exact Hn|exact Hj].
+Qed.
+
+(** select_translatable on one canonical sequence: the whole codons of the chosen frame, read on the
+    reverse complement when the frame is negative (reverse complement FIRST, then the offset) *)
+Definition frame_window (s : list Z) (f : Z) : list Z :=
+  let t := if f <? 0 then rc_spec s else s in
+  let r := skipn (Z.to_nat (Z.abs f - 1)) t in
+  firstn (Z.to_nat (zlen r - zlen r mod 3)) r.
+
+Lemma frame_window_translation tbl s f :
+  translate_spec tbl (frame_window s f)
+  = (if f <? 0 then frame_minus tbl s (Z.to_nat (Z.abs f - 1)) else frame_plus tbl s (Z.to_nat (Z.abs f - 1))).
+Proof.
+  unfold frame_window, frame_minus, frame_plus, translate_spec. cbv zeta.
+  rewrite !codons_chunks3, <- trunc3_firstn, chunks3_trunc3. destruct (f <? 0); reflexivity.
+Qed.
+
+Lemma select_one_spec_lemma id aa st s allow_rc trim f :
+  In (id, aa, st) new_codes -> canon_str s -> 2 < zlen s ->
+  best_frame aa s allow_rc = Ok f ->
+  select_translatable_one true aa s allow_rc trim
+  = if trim then trim_spec (ncbi_tbl id) false (frame_window s f) else Some (frame_window s f).
+Proof.
+  intros Hin Hs Hl Hf. unfold select_translatable_one. cbv zeta. rewrite (degap_canon s Hs), Hf. cbv beta iota.
+  change dna_comp_old with (comp_table Old DNA). rewrite (rc_pure_canon Old s Hs).
+  set (t := if f <? 0 then rc_spec s else s).
+  assert (Ht : canon_str t) by (unfold t; destruct (f <? 0); [apply canon_rc|]; exact Hs).
+  assert (Hw : firstn (Z.to_nat (3 * ((zlen t - (Z.abs f - 1)) / 3))) (skipn (Z.to_nat (Z.abs f - 1)) t) = frame_window s f).
+  { unfold frame_window. cbv zeta. fold t. f_equal.
+    destruct (best_frame_spec_lemma id aa st s allow_rc f Hin Hs Hl Hf) as (Hr & _).
+    assert (Hlt : zlen t = zlen s) by (unfold t; destruct (f <? 0); [apply zlen_rc_spec|reflexivity]).
+    assert (Hsk : zlen (skipn (Z.to_nat (Z.abs f - 1)) t) = zlen t - (Z.abs f - 1)).
+    { unfold zlen. rewrite skipn_length. unfold zlen in *. lia. }
+    rewrite Hsk. lia. }
+  subst t. cbv beta in Hw. rewrite Hw. destruct trim; [|reflexivity].
+  set (t := if f <? 0 then rc_spec s else s) in *.
+  assert (Hcw : canon_str (frame_window s f)).
+  { unfold frame_window. cbv zeta. fold t. apply canon_firstn, canon_skipn, Ht. }
+  destruct (trim_stop_codon_canon Old id aa st (frame_window s f) false Hin Hcw) as [Hts _].
+  destruct (trim_stop_codon true Old aa (frame_window s f) false); cbn [ropt] in Hts; exact Hts.
+Qed.
